@@ -1011,3 +1011,173 @@ for _r in RECIPES.values():
     if _r.group.startswith('io.') or _r.name in ('facet', 'cache-of-sort',
                                                  'sort-of-sort'):
         _r.stackable = False
+
+
+# ---------------------------------------------------------------------------
+# more argument forms of the same constructors (every documented argument
+# with its own branch in the code gets at least one variant)
+
+def V(name, *variants):
+    RECIPES[name].variants = list(RECIPES[name].variants) + list(variants)
+
+
+V('cut',
+  lambda e, w: e.cut(w.s[0], 2, 0),
+  lambda e, w: e.cut(w.s[0], *range(0, 2)),
+  lambda e, w: e.cut(w.s[0], 'b'))
+V('cutout', lambda e, w: e.cutout(w.s[0], 0),
+  lambda e, w: e.cutout(w.s[0], 'c', 'b', 'a'))
+V('movefield', lambda e, w: e.movefield(w.s[0], 'b', 0),
+  lambda e, w: e.movefield(w.s[0], 'a', 1))
+V('cat', lambda e, w: e.cat(w.s[0]),
+  lambda e, w: e.cat(w.s[0], w.s[1], w.s[0], missing=0),
+  lambda e, w: e.cat(w.s[1], w.s[0], header=['b', 'a']))
+V('stack', lambda e, w: e.stack(w.s[0], w.s[1], w.s[0]),
+  lambda e, w: e.stack(w.s[0]))
+V('addfield', lambda e, w: e.addfield(w.s[0], 'z', None),
+  lambda e, w: e.addfield(w.s[0], 'z', 'const', index=100),
+  lambda e, w: e.addfield(w.s[0], 'z', f_rec_a, index=-1))
+V('addfields',
+  lambda e, w: e.addfields(w.s[0], [('y', f_rec_a, 0)], missing='M'))
+V('rowslice', lambda e, w: e.rowslice(w.s[0], 0),
+  lambda e, w: e.rowslice(w.s[0], 3, None),
+  lambda e, w: e.rowslice(w.s[0], None, None, 3))
+V('head', lambda e, w: e.head(w.s[0], 1), lambda e, w: e.head(w.s[0], 100))
+V('tail', lambda e, w: e.tail(w.s[0], 0), lambda e, w: e.tail(w.s[0], 100),
+  lambda e, w: e.tail(w.s[0], 1))
+V('annex', lambda e, w: e.annex(w.s[0]))
+V('addrownumbers', lambda e, w: e.addrownumbers(w.s[0], start=0, step=-1))
+V('addcolumn', lambda e, w: e.addcolumn(w.s[0], 'z', []),
+  lambda e, w: e.addcolumn(w.s[0], 'z', (1, 2, 3), index=0))
+V('rename', lambda e, w: e.rename(w.s[0], 0, 'first'),
+  lambda e, w: e.rename(w.s[0], {0: 'first', 'b': 'second'}))
+V('setheader', lambda e, w: e.setheader(w.s[0], ['only']),
+  lambda e, w: e.setheader(w.s[0], ['p', 'q', 'r', 's', 't', 'u', 'v']))
+V('pushheader', lambda e, w: e.pushheader(w.s[0], ['only']))
+V('skip', lambda e, w: e.skip(w.s[0], 0))
+V('sortheader', lambda e, w: e.sortheader(w.s[0]))
+V('convert',
+  lambda e, w: e.convert(w.s[0], 'b', 'replace', 'x', 'Q'),
+  lambda e, w: e.convert(w.s[0], 'b', ('replace', 'x', 'Q')),
+  lambda e, w: e.convert(w.s[0], 0, f_inc),
+  lambda e, w: e.convert(w.s[0], 'c', f_inc, where="{a} == 1"),
+  lambda e, w: e.convert(w.s[0], 'b', 'upper', failonerror='inline'),
+  lambda e, w: e.convert(w.s[0], 'b', 'upper', failonerror=False,
+                         errorvalue='ERR'),
+  lambda e, w: e.convert(w.s[0], [f_inc, f_upper]),
+  lambda e, w: e.convert(w.s[0]))
+V('convertall', lambda e, w: e.convertall(w.s[0], 'upper', failonerror=False),
+  lambda e, w: e.convertall(w.s[0], f_str, where=f_pred_a))
+V('replace', lambda e, w: e.replace(w.s[0], 'a', None, 0))
+V('update', lambda e, w: e.update(w.s[0], 0, 'Z'))
+V('convertnumbers', lambda e, w: e.convertnumbers(w.s[0], strict=True,
+                                                  failonerror=False))
+V('filldown', lambda e, w: e.filldown(w.s[0], 'a', missing=0))
+V('fieldmap',
+  lambda e, w: e.fieldmap(w.s[0], {'A': 0, 'expr': '{c} * 2'},
+                          failonerror=False),
+  lambda e, w: e.fieldmap(w.s[0]))
+V('rowmapmany',
+  lambda e, w: e.rowmapmany(w.s[0], f_rowgen, header=['k', 'w'],
+                            failonerror='inline'))
+V('melt', lambda e, w: e.melt(w.s[0], 'a', variablefield='var',
+                              valuefield='val'),
+  lambda e, w: e.melt(w.s[0], variables=['b', 'c']),
+  lambda e, w: e.melt(w.s[0], key=['a', 'b', 'c']))
+V('recast',
+  lambda e, w: e.recast(e.melt(w.s[0], ['a', 'b'], variables=['c']),
+                        key='a'),
+  lambda e, w: e.recast(e.melt(w.s[0], 'a', variables=['b', 'c']),
+                        samplesize=1),
+  lambda e, w: e.recast(e.melt(w.s[0], 'a', variables=['b', 'c'],
+                               variablefield='var', valuefield='val'),
+                        variablefield='var', valuefield='val'))
+V('pivot', lambda e, w: e.pivot(w.s[0], 'b', 'a', 'c', sum))
+V('unflatten', lambda e, w: e.unflatten(e.values(w.s[0], 'c'), 1),
+  lambda e, w: e.unflatten(w.s[0], 'b', 2))
+V('capture',
+  lambda e, w: e.capture(w.s[0], 'e', r'(\d)', ['n'], fill=['-']),
+  lambda e, w: e.capture(w.s[0], 'b', '(x)(Y)?', flags=re.I, fill=[0, 0]))
+V('split', lambda e, w: e.split(w.s[0], 'e', ' '),
+  lambda e, w: e.split(w.s[0], 'b', 'X', ['p', 'q'], flags=re.I))
+V('sub', lambda e, w: e.sub(w.s[0], 'b', 'X', 'q', flags=re.I))
+V('search', lambda e, w: e.search(w.s[0], 'e', r'\d{2}'),
+  lambda e, w: e.search(w.s[0], 'b', 'X', flags=re.I))
+V('splitdown', lambda e, w: e.splitdown(w.s[0], 'e', ' ', maxsplit=1))
+V('select', lambda e, w: e.select(w.s[0], lambda rec: rec[0] is None),
+  lambda e, w: e.select(w.s[0], 'd', lambda v: v, complement=True),
+  lambda e, w: e.select(w.s[0], "{a} is None or {c} < 3"))
+V('rowlenselect', lambda e, w: e.rowlenselect(w.s[0], 0))
+V('biselect', lambda e, w: e.biselect(w.s[0], 'c', f_pred_c))
+V('hashjoin', lambda e, w: e.hashjoin(w.s[0], w.s[1], key=('a',)),
+  lambda e, w: e.hashjoin(w.s[0], w.s[1], lkey=['a', 'b'],
+                          rkey=['a', 'b'], cache=False))
+V('hashleftjoin',
+  lambda e, w: e.hashleftjoin(w.s[0], w.s[1], lkey='a', rkey='c',
+                              lprefix='l.', rprefix='r.'))
+V('hashrightjoin',
+  lambda e, w: e.hashrightjoin(w.s[1], w.s[0], lkey='c', rkey='a',
+                               missing=0))
+V('hashlookupjoin',
+  lambda e, w: e.hashlookupjoin(w.s[0], w.s[1], lkey='a', rkey='c',
+                                rprefix='r_'))
+V('join', lambda e, w: e.join(w.s[0], w.s[1], key=['a', 'b']),
+  lambda e, w: e.join(w.s[0], w.s[1], key='a', presorted=False,
+                      tempdir=w.tempdir, buffersize=1))
+V('leftjoin', lambda e, w: e.leftjoin(w.s[0], w.s[1], lkey='a', rkey='c',
+                                      lprefix='l', rprefix='r'))
+V('rightjoin', lambda e, w: e.rightjoin(w.s[0], w.s[1], key='a',
+                                        missing='M'))
+V('outerjoin', lambda e, w: e.outerjoin(w.s[0], w.s[1], key=['a', 'b'],
+                                        missing=0))
+V('crossjoin', lambda e, w: e.crossjoin(w.s[0], w.s[1], w.s[0]),
+  lambda e, w: e.crossjoin(w.s[0]))
+V('antijoin', lambda e, w: e.antijoin(w.s[0], w.s[1], lkey='a', rkey='c'))
+V('lookupjoin', lambda e, w: e.lookupjoin(w.s[0], w.s[1], key='a',
+                                          missing='M', rprefix='r_'))
+V('unjoin', lambda e, w: e.unjoin(w.s[0], 'b', autoincrement=(10, 5)))
+V('complement', lambda e, w: e.complement(w.s[0], w.s[0]))
+V('intersection', lambda e, w: e.intersection(w.s[0], w.s[0]))
+V('diff', lambda e, w: e.diff(w.s[0], w.s[1], strict=True))
+V('recorddiff', lambda e, w: e.recorddiff(w.s[0], w.s[1], strict=True))
+V('duplicates', lambda e, w: e.duplicates(w.s[0], key=['a', 'b']))
+V('unique', lambda e, w: e.unique(w.s[0]))
+V('conflicts',
+  lambda e, w: e.conflicts(w.s[0], 'a', missing='', include=['b', 'c']),
+  lambda e, w: e.conflicts(w.s[0], ['a', 'b']))
+V('distinct', lambda e, w: e.distinct(w.s[0], key=['a', 'b'], count='n'))
+V('aggregate',
+  lambda e, w: e.aggregate(w.s[0], 'a', list, 'c', field='cs'),
+  lambda e, w: e.aggregate(w.s[0], 'a', [('n', len), ('m', 'c', max)]
+                           if False else {'n': len}))
+V('mergeduplicates', lambda e, w: e.mergeduplicates(w.s[0], ['a', 'b']))
+V('merge', lambda e, w: e.merge(w.s[0], w.s[1], key='a', missing='M'))
+V('fold', lambda e, w: e.fold(w.s[0], ['a', 'b'], f_fold, value='c'))
+V('groupselectfirst', lambda e, w: e.groupselectfirst(w.s[0], ['a', 'b']))
+V('groupselectmin', lambda e, w: e.groupselectmin(w.s[0], 'b', 'c'))
+V('sort', lambda e, w: e.sort(w.s[0], 0),
+  lambda e, w: e.sort(w.s[0], ('a', 'c'), reverse=True, buffersize=2),
+  lambda e, w: e.sort(w.s[0], reverse=True))
+V('mergesort',
+  lambda e, w: e.mergesort(w.s[0], w.s[1], w.s[0], key='a'),
+  lambda e, w: e.mergesort(w.s[0], key='c'),
+  lambda e, w: e.mergesort(w.s[0], w.s[1], key=['a', 'c'], buffersize=3,
+                           cache=False, tempdir=w.tempdir))
+V('fromcsv',
+  lambda e, w: _from_csv(e, w, encoding='latin-1', errors='replace'),
+  lambda e, w: e.fromcsv(_put(w, 'g.csv', _csv_bytes(w.tables[0], ';')),
+                         delimiter=';'))
+V('fromtext', lambda e, w: _from_text(e, w, strip=False),
+  lambda e, w: _from_text(e, w, encoding='utf-8', errors='replace'))
+V('fromdicts-gen', lambda e, w: _from_dicts_gen(e, w, sample=1),
+  lambda e, w: _from_dicts_gen(e, w, header=['c'], sample=3))
+V('fromdicts-list', lambda e, w: _from_dicts_list(e, w, sample=1))
+V('fromcolumns', lambda e, w: e.fromcolumns([[1, 2, 3], ['a', 'b']],
+                                            header=['n', 's'], missing=0))
+V('valuecounts', lambda e, w: e.valuecounts(w.s[0], 'a', missing='M'))
+V('randomtable', lambda e, w: e.randomtable(4, 3, seed=0, wait=0))
+V('values', lambda e, w: e.values(w.s[0], 0))
+V('data', lambda e, w: e.data(w.s[0], 0, 6))
+V('dicts', lambda e, w: e.dicts(w.s[0], 0, 3))
+V('records', lambda e, w: e.records(w.s[0], 2, missing='M'))
+V('namedtuples', lambda e, w: e.namedtuples(w.s[0], 0, 2))
